@@ -15,3 +15,4 @@ vmod!(net, "net.rs");
 vmod!(sched, "sched.rs");
 vmod!(types, "types.rs");
 vmod!(rbench, "rbench.rs");
+vmod!(wbench, "wbench.rs");
